@@ -158,6 +158,41 @@ Section History.
     destruct (winner_backers_agree_on_fields keqb h Hk ord sn _ w Hord Wf Hv) as [C|(wp & Iw & Ew & _ & Q)]; [now left|right].
     exists wp. auto.
   Qed.
+  (** Invariant over all histories: every stored piece of evidence is hashable (AddMessageEvidence refuses
+      the others), so the attestation run of a queued request never fails on an absent / unusable proof —
+      the side condition of [outsiders_ignored] holds for everything the keeper can store. *)
+  Lemma stored_hashable_step s o :
+    Forall (fun e => hashable (pe_proof e) = true) (as_evs s) ->
+    Forall (fun e => hashable (pe_proof e) = true) (as_evs (step s o)).
+  Proof.
+    intros H. unfold step, att_step. destruct (as_won s); [exact H|]. destruct o as [e|sn ord].
+    - destruct (hashable (pe_proof e)) eqn:E; [|exact H]. cbn [as_evs].
+      apply Forall_forall. intros x Ix. apply add_pev_in in Ix as [Ix|Ix].
+      + rewrite Forall_forall in H. now apply H.
+      + now rewrite Ix.
+    - destruct (verify_evidence _ _ _ _ _); exact H.
+  Qed.
+
+  Theorem stored_evidence_is_hashable : forall ops,
+    Forall (fun e => hashable (pe_proof e) = true) (as_evs (fold_left step ops att_init)).
+  Proof.
+    intros ops. assert (H : Forall (fun e => hashable (pe_proof e) = true) (as_evs att_init)) by constructor.
+    revert H. generalize att_init. induction ops as [|o r IH]; intros s H; [exact H|].
+    cbn [fold_left]. apply IH. now apply stored_hashable_step.
+  Qed.
+
+  Theorem attestation_run_never_fails : forall ops sn ord,
+    verify_evidence keqb (code_key h) ord sn (map ev_of (as_evs (fold_left step ops att_init))) <> Failed.
+  Proof.
+    intros ops sn ord. pose proof (stored_evidence_is_hashable ops) as H.
+    unfold verify_evidence. destruct (negb _); [discriminate|].
+    assert (E : existsb ev_bad (map ev_of (as_evs (fold_left step ops att_init))) = false).
+    { induction (as_evs (fold_left step ops att_init)) as [|e l IH]; [reflexivity|].
+      inversion H as [|? ? He Hl]; subst. cbn [map existsb]. rewrite (IH Hl).
+      unfold hashable in He. cbn [ev_of ev_bad]. destruct (bytes_to_hash (pe_proof e)); [reflexivity|discriminate]. }
+    rewrite E. clear. induction (ord _) as [|g gs IH]; cbn [first_consensus]; [discriminate|].
+    destruct (consensus _ _); [discriminate|exact IH].
+  Qed.
 End History.
 
 (** Non-vacuity: three equal validators; 1 answers a, 2 answers b: the run removes nothing; a proof-less
